@@ -19,7 +19,7 @@ from mc import core
 core.setup_repo_path()
 from sfc_models.models import Model, Country, Region  # noqa
 from sfc_models.sector import Sector, Market  # noqa
-from sfc_models.sector_definitions import (Household, HouseholdWithExpectations, Capitalists,  # noqa
+from sfc_models.sector_definitions import (Household, HouseholdWithExpectations, Capitalists, GoldStandardCentralBank,  # noqa
                                            ConsolidatedGovernment, Treasury, CentralBank, FixedMarginBusiness,
                                            FixedMarginBusinessMultiOutput, TaxFlow, MoneyMarket, DepositMarket,
                                            GoldStandardGovernment)
@@ -57,7 +57,7 @@ def declarations(c):
     out = []
     if c['gov'] in ('CONS', 'GOLD'):
         out.append(('GOV', []))
-    elif c['gov'] == 'TRECB':
+    elif c['gov'] in ('TRECB', 'GOLDCB'):
         out.append(('TRE', []))
         out.append(('CB', ['TRE']))
     if c['hh']:
@@ -71,9 +71,9 @@ def declarations(c):
         out.append(('BUS', ['GOOD'] if c['bus'] == 'MO' else []))
     if c['tax'] is not None:
         out.append(('TF', []))
-    if c['mon'] or c['gov'] == 'TRECB':
+    if c['mon'] or c['gov'] in ('TRECB', 'GOLDCB'):
         out.append(('MON', []))
-    if c['dep'] or c['gov'] == 'TRECB':
+    if c['dep'] or c['gov'] in ('TRECB', 'GOLDCB'):
         out.append(('DEP', []))
     if c.get('dep2'):
         out.append(('BOND', []))
@@ -114,7 +114,7 @@ def NN(c, names, code):
 
 
 def gov_code(c):
-    return 'TRE' if c['gov'] == 'TRECB' else 'GOV'
+    return 'TRE' if c['gov'] in ('TRECB', 'GOLDCB') else 'GOV'
 
 
 def build(spec, order=None, names=None, maxtime=None):
@@ -171,7 +171,10 @@ def _declare(b, c, co, did, names, specs_by_code, imported, deferred):
     elif did == 'TRE':
         S[(code, 'TRE')] = Treasury(co, NN(c, names, 'TRE'))
     elif did == 'CB':
-        S[(code, 'CB')] = CentralBank(co, NN(c, names, 'CB'), treasury=S[(code, 'TRE')])
+        if c['gov'] == 'GOLDCB':
+            S[(code, 'CB')] = GoldStandardCentralBank(co, NN(c, names, 'CB'), treasury=S[(code, 'TRE')], initial_gold_stock=10.)
+        else:
+            S[(code, 'CB')] = CentralBank(co, NN(c, names, 'CB'), treasury=S[(code, 'TRE')])
     elif did == 'HH':
         cls = Household if c['hh'] == 'HH' else HouseholdWithExpectations
         S[(code, 'HH')] = cls(co, NN(c, names, 'HH'), alpha_income=c['a1'], alpha_fin=c['a2'],
@@ -204,13 +207,13 @@ def _declare(b, c, co, did, names, specs_by_code, imported, deferred):
     elif did == 'TF':
         S[(code, 'TF')] = TaxFlow(co, NN(c, names, 'TF'), taxrate=c['tax'], taxes_paid_to=_zone_gov_name(b, c, names))
     elif did == 'MON':
-        issuer = 'CB' if c['gov'] == 'TRECB' else 'GOV'
+        issuer = 'CB' if c['gov'] in ('TRECB', 'GOLDCB') else 'GOV'
         S[(code, 'MON')] = MoneyMarket(co, code=c.get('moncode', 'MON'), issuer_short_code=NN(c, names, issuer))
     elif did == 'DEP':
-        issuer = 'TRE' if c['gov'] == 'TRECB' else 'GOV'
+        issuer = 'TRE' if c['gov'] in ('TRECB', 'GOLDCB') else 'GOV'
         S[(code, 'DEP')] = DepositMarket(co, issuer_short_code=NN(c, names, issuer))
     elif did == 'BOND':
-        issuer = 'TRE' if c['gov'] == 'TRECB' else 'GOV'
+        issuer = 'TRE' if c['gov'] in ('TRECB', 'GOLDCB') else 'GOV'
         S[(code, 'BOND')] = DepositMarket(co, code='BOND', issuer_short_code=NN(c, names, issuer))
     else:
         raise ValueError(did)
@@ -248,7 +251,7 @@ def _tail(b, names):
                 gov.AddVariable(var, 'Government demand', '0.0')
             gov.SetExogenous(var, PATHS[c['G']])
         # residual supplier / imports
-        if c['dep'] or c['gov'] == 'TRECB':
+        if c['dep'] or c['gov'] in ('TRECB', 'GOLDCB'):
             dep = S[(code, 'DEP')]
             dep.SetExogenous('r', PATHS[c['r']])
             kind = c['dep'] or 'const'
@@ -355,6 +358,7 @@ def country_deviations(c, allow_gold):
         out.append(('gov=TRECB', {'gov': 'TRECB'}))
         if allow_gold:
             out.append(('gov=GOLD', {'gov': 'GOLD'}))
+            out.append(('gov=GOLDCB', {'gov': 'GOLDCB'}))
         out.append(('tax=none', {'tax': None}))
         out.append(('tax=.25', {'tax': 0.25}))
         out.append(('mon', {'mon': True}))
@@ -387,11 +391,11 @@ def apply_country(spec, idx, upd):
 
 def well_formed(spec):
     for c in spec['countries']:
-        if c['gov'] == 'GOLD' and not spec.get('ext'):
+        if c['gov'] in ('GOLD', 'GOLDCB') and not spec.get('ext'):
             return False
         if c['gov'] == 'GOLD' and (c['mon'] or c['dep']):
             return False
-        if c['r'] != 'r25' and not (c['dep'] or c['gov'] == 'TRECB'):
+        if c['r'] != 'r25' and not (c['dep'] or c['gov'] in ('TRECB', 'GOLDCB')):
             return False
         if c['region'] and (c['mon'] or c['dep'] or c['tax'] is not None):
             return False
